@@ -28,6 +28,8 @@ import (
 	cmtsecp "github.com/cometbft/cometbft/crypto/secp256k1"
 	aoltypes "github.com/medibloc/panacea-core/v2/x/aol/types"
 	didtypes "github.com/medibloc/panacea-core/v2/x/did/types"
+	pnfttypes "github.com/medibloc/panacea-core/v2/x/pnft/types"
+	"github.com/cosmos/cosmos-sdk/x/nft"
 )
 
 const feeDenom = "umed"
@@ -187,6 +189,36 @@ func (x *Exec) parseMsg(f []string) (ParsedMsg, error) {
 		pm.Args = []string{str(0), str(1), str(2), str(3)}
 		x.declAddrString(str(3))
 		pm.Msg = &didtypes.MsgDeactivateDIDRequest{Did: str(0), VerificationMethodId: str(1), Signature: untok(a[2]), FromAddress: str(3)}
+	case "pnft.CreateDenom":
+		pm.Args = []string{str(0), str(1), str(2), str(3), str(4), str(5), str(6), str(7)}
+		x.declAddrString(str(6))
+		pm.Msg = &pnfttypes.MsgCreateDenomRequest{Id: str(0), Name: str(1), Symbol: str(2), Description: str(3), Uri: str(4), UriHash: str(5), Creator: str(6), Data: str(7)}
+	case "pnft.UpdateDenom":
+		pm.Args = []string{str(0), str(1), str(2), str(3), str(4), str(5), str(6), str(7)}
+		x.declAddrString(str(6))
+		pm.Msg = &pnfttypes.MsgUpdateDenomRequest{Id: str(0), Name: str(1), Symbol: str(2), Description: str(3), Uri: str(4), UriHash: str(5), Updater: str(6), Data: str(7)}
+	case "pnft.DeleteDenom":
+		pm.Args = []string{str(0), str(1)}
+		x.declAddrString(str(1))
+		pm.Msg = &pnfttypes.MsgDeleteDenomRequest{Id: str(0), Remover: str(1)}
+	case "pnft.TransferDenom":
+		pm.Args = []string{str(0), str(1), str(2)}
+		x.declAddrString(str(1))
+		x.declAddrString(str(2))
+		pm.Msg = &pnfttypes.MsgTransferDenomRequest{Id: str(0), Sender: str(1), Receiver: str(2)}
+	case "pnft.Mint":
+		pm.Args = []string{str(0), str(1), str(2), str(3), str(4), str(5), str(6), str(7)}
+		x.declAddrString(str(7))
+		pm.Msg = &pnfttypes.MsgMintPNFTRequest{DenomId: str(0), Id: str(1), Name: str(2), Description: str(3), Uri: str(4), UriHash: str(5), Data: str(6), Creator: str(7)}
+	case "pnft.Transfer":
+		pm.Args = []string{str(0), str(1), str(2), str(3)}
+		x.declAddrString(str(2))
+		x.declAddrString(str(3))
+		pm.Msg = &pnfttypes.MsgTransferPNFTRequest{DenomId: str(0), Id: str(1), Sender: str(2), Receiver: str(3)}
+	case "pnft.Burn":
+		pm.Args = []string{str(0), str(1), str(2)}
+		x.declAddrString(str(2))
+		pm.Msg = &pnfttypes.MsgBurnPNFTRequest{DenomId: str(0), Id: str(1), Burner: str(2)}
 	case "bank.Send":
 		pm.Args = []string{str(0), str(1), a[2]}
 		x.declAddrString(str(0))
@@ -612,7 +644,123 @@ func (x *Exec) pageWalk(f []string) {
 	}
 }
 
+func denomStr(d *pnfttypes.Denom) string {
+	return strings.Join([]string{toks(d.Id), toks(d.Name), toks(d.Symbol), toks(d.Description), toks(d.Uri), toks(d.UriHash), toks(d.Owner), toks(d.Data)}, "/")
+}
+
+func pnftStr(p *pnfttypes.Pnft) string {
+	return strings.Join([]string{toks(p.DenomId), toks(p.Id), toks(p.Name), toks(p.Description), toks(p.Uri), toks(p.UriHash), toks(p.Data), toks(p.Creator),
+		strconv.FormatInt(p.CreatedAt.UnixNano(), 10), toks(p.Owner)}, "/")
+}
+
+// plain (non-status) handler errors surface as sdk/18; gRPC status errors carry "code = ..."
+func pnftQueryErr(res abci.ResponseQuery) string {
+	c := queryErrClass(res)
+	if strings.HasPrefix(c, "Q err ?") {
+		return "Q err 2"
+	}
+	return c
+}
+
+func (x *Exec) pnftQuery(f []string) (string, bool) {
+	list := func(items []string) string { return "Q ok L" + func() string {
+		r := ""
+		for _, it := range items {
+			r += "," + it
+		}
+		return r
+	}() }
+	switch f[1] {
+	case "pnft.Denom":
+		res := x.C.Query("/panacea.pnft.v2.Query/Denom", &pnfttypes.QueryDenomRequest{Id: s(f[2])}, 0)
+		if res.Code != 0 {
+			return pnftQueryErr(res), true
+		}
+		var r pnfttypes.QueryDenomResponse
+		must(r.Unmarshal(res.Value))
+		return "Q ok " + denomStr(r.Denom), true
+	case "pnft.PNFT":
+		res := x.C.Query("/panacea.pnft.v2.Query/PNFT", &pnfttypes.QueryPNFTRequest{DenomId: s(f[2]), Id: s(f[3])}, 0)
+		if res.Code != 0 {
+			return pnftQueryErr(res), true
+		}
+		var r pnfttypes.QueryPNFTResponse
+		must(r.Unmarshal(res.Value))
+		x.declOwnerStr(r.Pnft.Owner)
+		return "Q ok " + pnftStr(r.Pnft), true
+	case "pnft.PNFTs":
+		res := x.C.Query("/panacea.pnft.v2.Query/PNFTs", &pnfttypes.QueryPNFTsRequest{DenomId: s(f[2])}, 0)
+		if res.Code != 0 {
+			return pnftQueryErr(res), true
+		}
+		var r pnfttypes.QueryPNFTsResponse
+		must(r.Unmarshal(res.Value))
+		var items []string
+		for _, p := range r.Pnfts {
+			x.declOwnerStr(p.Owner)
+			items = append(items, pnftStr(p))
+		}
+		return list(items), true
+	case "pnft.ByOwner":
+		x.declAddrString(s(f[3]))
+		res := x.C.Query("/panacea.pnft.v2.Query/PNFTsByDenomOwner", &pnfttypes.QueryPNFTsByDenomOwnerRequest{DenomId: s(f[2]), Owner: s(f[3])}, 0)
+		if res.Code != 0 {
+			return pnftQueryErr(res), true
+		}
+		var r pnfttypes.QueryPNFTsByDenomOwnerResponse
+		must(r.Unmarshal(res.Value))
+		var items []string
+		for _, p := range r.Pnfts {
+			x.declOwnerStr(p.Owner)
+			items = append(items, pnftStr(p))
+		}
+		return list(items), true
+	case "pnft.DenomsByOwner":
+		res := x.C.Query("/panacea.pnft.v2.Query/DenomsByOwner", &pnfttypes.QueryDenomsByOwnerRequest{Owner: s(f[2])}, 0)
+		if res.Code != 0 {
+			return pnftQueryErr(res), true
+		}
+		var r pnfttypes.QueryDenomsByOwnerResponse
+		must(r.Unmarshal(res.Value))
+		var items []string
+		for _, d := range r.Denoms {
+			items = append(items, denomStr(d))
+		}
+		return list(items), true
+	case "pnft.Denoms":
+		res := x.C.Query("/panacea.pnft.v2.Query/Denoms", &pnfttypes.QueryDenomsRequest{Pagination: pageReq(f[2:])}, 0)
+		if res.Code != 0 {
+			return pnftQueryErr(res), true
+		}
+		var r pnfttypes.QueryDenomsResponse
+		must(r.Unmarshal(res.Value))
+		l := "L"
+		for _, d := range r.Denoms {
+			l += "," + denomStr(d)
+		}
+		next, total := "nil", "0"
+		if r.Pagination != nil {
+			if len(r.Pagination.NextKey) > 0 {
+				next = hex.EncodeToString(r.Pagination.NextKey)
+			}
+			total = strconv.FormatUint(r.Pagination.Total, 10)
+		}
+		return joinSp("Q", "ok", l, next, total), true
+	}
+	return "", false
+}
+
+// declOwnerStr: owner strings printed by the implementation are bech32 of stored bytes; tell the model
+func (x *Exec) declOwnerStr(o string) {
+	if a, err := sdk.AccAddressFromBech32(o); err == nil {
+		x.declBech(a)
+	}
+}
+
 func (x *Exec) query(f []string) string {
+	if r, ok := x.pnftQuery(f); ok {
+		return r
+	}
 	switch f[1] {
 	case "aol.Topics":
 		x.declAddrString(s(f[2]))
@@ -717,6 +865,39 @@ func (x *Exec) dump(which string) string {
 			parts = append(parts, hex.EncodeToString(kv[0])+"="+aolValToks(kv[0], kv[1], ":"))
 		}
 		return "D aol " + strings.Join(parts, ";")
+	}
+	if which == "pnft" {
+		var parts []string
+		cdc := x.C.App.AppCodec()
+		for _, kv := range x.C.DumpStore("pnft") {
+			k, v := kv[0], kv[1]
+			var val string
+			switch k[0] {
+			case 1:
+				var c nft.Class
+				must(cdc.Unmarshal(v, &c))
+				d, err := pnfttypes.NewDenomFromClass(cdc, &c)
+				must(err)
+				val = "C:" + denomStr(d)
+			case 2:
+				var n nft.NFT
+				must(cdc.Unmarshal(v, &n))
+				var meta pnfttypes.PNFTMeta
+				must(cdc.Unmarshal(n.Data.GetValue(), &meta))
+				val = "T:" + strings.Join([]string{toks(n.ClassId), toks(n.Id), toks(meta.Name), toks(meta.Description), toks(n.Uri), toks(n.UriHash), toks(meta.Data), toks(meta.Creator), strconv.FormatInt(meta.CreatedAt.UnixNano(), 10)}, "/")
+			case 3:
+				val = "P"
+			case 4:
+				val = "O:" + tok(v)
+				x.declBech(v)
+			case 5:
+				val = "S:" + strconv.FormatUint(sdk.BigEndianToUint64(v), 10)
+			default:
+				val = "?" + hex.EncodeToString(v)
+			}
+			parts = append(parts, hex.EncodeToString(k)+"="+val)
+		}
+		return "D pnft " + strings.Join(parts, ";")
 	}
 	if which == "did" {
 		var parts []string
